@@ -130,7 +130,8 @@ def verify(pyfile, fname, lib, setup, on_outcomes, config=None,
         s = sites.setdefault(ob.site, {
             'site': ob.site, 'kind': ob.kind, 'text': ob.text,
             'line': ob.line, 'instances': 0, 'proved': 0, 'refuted': 0,
-            'undecided': 0, 'model': None, 'by': set(), 'lines': set()})
+            'undecided': 0, 'model': None, 'by': set(), 'lines': set(),
+            'prop': ob.extra.get('prop')})
         s['instances'] += 1
         s[ob.status] += 1
         s['lines'].add(ob.line)
